@@ -258,6 +258,11 @@ def run(ctx, rep):
     from .C11 import need_write_rule
     need_write_rule(P, rep, 'R-C06-15')
     chsize_full_size_rule(P, rep, 'R-C06-14s', 'state_sync')
+    # a disk without files keeps its mapping and its DELETED blocks while their parity is pending: dropping them makes the stripes
+    # look synced while the parity still holds the deleted data (shared with C07 / C10)
+    from .C10 import empty_disk_rule, empty_disk_search_rule
+    empty_disk_rule(P, rep, 'R-C06-16')
+    empty_disk_search_rule(P, rep, 'R-C06-16s')
     from .C07 import past_hash_cleared_rule
     past_hash_cleared_rule(P, rep, 'R-C06-10d')
 
